@@ -825,9 +825,15 @@ class Sim:
             return None
         x = self._deref(args[0], path)
         f = args[1]
+        R, O = "std::result::Result::<T, E>::", "std::option::Option::<T>::"
+        if p in (O + "map_or", R + "map_or") and len(args) == 3 and isinstance(x, Adt) \
+                and isinstance(args[2], (Closure, FnItem)):
+            some = x.variant == (1 if p.startswith(O) else 0)
+            if not some:
+                return [cont(args[1])]
+            return self.call_closure(args[2], [x.fields[0]], fn, env, bb, t, path, depth, cont)
         if not isinstance(f, (Closure, FnItem)) or not isinstance(x, Adt):
             return None
-        R, O = "std::result::Result::<T, E>::", "std::option::Option::<T>::"
 
         def wrap_cont(mk):
             def c2(val, p2=path, e2=env):
@@ -870,8 +876,11 @@ class Sim:
             if x.variant == 1:
                 return [cont(x.fields[0])]
             return self.call_closure(f, [], fn, env, bb, t, path, depth, cont)
-        if p == O + "map_or":
-            return None
+        if p in (O + "is_some_and", R + "is_ok_and"):
+            some = x.variant == (1 if p.startswith(O) else 0)
+            if not some:
+                return [cont(0)]
+            return self.call_closure(f, [x.fields[0]], fn, env, bb, t, path, depth, cont)
         return None
 
     def _builtin(self, t, names, args, path):
@@ -925,6 +934,18 @@ class Sim:
             if isinstance(a, Adt):
                 r = a.variant == 1
                 return ("value", int(r if p.endswith("is_some") else not r))
+            return ("value", UNK)
+        if p in ("std::result::Result::<T, E>::is_ok", "std::result::Result::<T, E>::is_err"):
+            a = d[0]
+            if isinstance(a, Adt):
+                r = a.variant == 0
+                return ("value", int(r if p.endswith("is_ok") else not r))
+            return ("value", UNK)
+        if p in ("std::result::Result::<T, E>::ok", "std::result::Result::<T, E>::err"):
+            a = d[0]
+            if isinstance(a, Adt):
+                hit = a.variant == (0 if p.endswith("::ok") else 1)
+                return ("value", Adt("std::option::Option", 1, [a.fields[0]]) if hit else Adt("std::option::Option", 0, []))
             return ("value", UNK)
         if p == "std::result::Result::<std::option::Option<T>, E>::transpose":
             a = d[0]
